@@ -31,7 +31,7 @@ STRESS_INIS = [
     ("identity-data-sources", 3, 150, 600,
      b'[snoopy]\noutput = file:@D@/out.log\nmessage_format = "%{username} %{eusername} %{group} %{egroup} %{tty_username} %{login} %{hostname} %{filename}"\n'),
     ("datetime", 6, 600, 12000, b'[snoopy]\noutput = devnull\nmessage_format = "%{datetime} %{filename}"\n'),
-    ("datetime-epoch", 6, 800, 12000, b'[snoopy]\noutput = devnull\nmessage_format = "%{datetime:%s} %{datetime:%Z} %{filename}"\n'),
+    ("datetime-epoch", 6, 800, 12000, b'[snoopy]\noutput = devnull\nmessage_format = "%{datetime:%s} %{datetime:%-s} %{datetime:%_s} %{datetime:%012s} %{datetime:%Z} %{datetime:%^Z} %{filename}"\n'),
     ("ipaddr-on-a-terminal", 6, 300, 6000, b'[snoopy]\noutput = devnull\nmessage_format = "%{ipaddr} %{tty} %{login} %{filename}"\n'),
     ("error-in-every-call", 6, 500, 3000,
      b'[snoopy]\noutput = devnull\nerror_logging = yes\nlog_message_max_length = 255\nmessage_format = "%{snoopy_literal:' + b"L" * 300 + b'}%{cmdline}"\n'),
